@@ -26,6 +26,15 @@ pub enum Sink {
     DashOFileWhileAnotherInvocationFails,
     /// `-o /dev/stdout`: the output path is not a regular file
     DashODevStdout,
+    /// two live invocations of the very same command line (`compile x.json -o FILE`) under the cooperative scheduler: both
+    /// announce before opening the output and before each of their first writes to it; the harness decides who goes next
+    DashOFileTwoScheduledInvocations,
+    /// the same, but the *other* invocation (which opened the output first) is killed in the middle of its first write to it:
+    /// whatever it held (a lock, a temporary name) is gone with it, and a partial file may be all it left
+    DashOFileWhileAnotherLiveInvocationIsKilled,
+    /// stdout is a regular file opened for appending that already holds a prefix (`fml compile a >> lib`, or the second command of
+    /// `{ fml compile a; fml compile b; } > all`): the image must follow the prefix, and the prefix must stay
+    StdoutAppendedToFile,
 }
 
 impl Sink {
@@ -40,16 +49,19 @@ impl Sink {
             Sink::DashODevFull => "-o /dev/full",
             Sink::DashOFileWhileAnotherInvocationFails => "-o FILE while another invocation with the same -o FILE fails",
             Sink::DashODevStdout => "-o /dev/stdout",
+            Sink::DashOFileTwoScheduledInvocations => "-o FILE, two live invocations of the same command under a decided interleaving",
+            Sink::StdoutAppendedToFile => "stdout>>file with a prefix",
+            Sink::DashOFileWhileAnotherLiveInvocationIsKilled => "-o FILE while another live invocation of the same command, which opened the file first, is killed mid-write",
         }
     }
     fn from_name(s: &str) -> Option<Sink> {
-        [Sink::StdoutFile, Sink::StdoutPipe, Sink::DashOFile, Sink::DashODir, Sink::StdinToStdout, Sink::StdoutDevFull, Sink::DashODevFull, Sink::DashOFileWhileAnotherInvocationFails, Sink::DashODevStdout]
+        [Sink::StdoutFile, Sink::StdoutPipe, Sink::DashOFile, Sink::DashODir, Sink::StdinToStdout, Sink::StdoutDevFull, Sink::DashODevFull, Sink::DashOFileWhileAnotherInvocationFails, Sink::DashODevStdout, Sink::DashOFileTwoScheduledInvocations, Sink::StdoutAppendedToFile, Sink::DashOFileWhileAnotherLiveInvocationIsKilled]
             .iter().find(|k| k.name() == s).cloned()
     }
     /// shim class of the fd the bytecode goes to
     fn class(&self) -> char {
         match self {
-            Sink::DashOFile | Sink::DashODir | Sink::DashODevFull | Sink::DashOFileWhileAnotherInvocationFails | Sink::DashODevStdout => 'f',
+            Sink::DashOFile | Sink::DashODir | Sink::DashODevFull | Sink::DashOFileWhileAnotherInvocationFails | Sink::DashODevStdout | Sink::DashOFileTwoScheduledInvocations | Sink::DashOFileWhileAnotherLiveInvocationIsKilled => 'f',
             _ => 'o',
         }
     }
@@ -67,12 +79,14 @@ pub struct ProcCase {
     /// name of the AST file handed to `fml compile`
     pub input_name: String,
     pub hash_seed: u64,
+    /// the interleaving of the scheduled scenarios: whenever both invocations wait, character k ('0' = A, '1' = B) says who goes
+    pub sched: String,
 }
 
 impl ProcCase {
     pub fn to_json(&self) -> Value {
         json!({"engine": ENGINE_B, "program": self.spec.to_json(), "profile": self.profile.name(), "sink": self.sink.name(),
-               "plan": self.plan, "stale": self.stale, "input_name": self.input_name, "hash_seed": self.hash_seed})
+               "plan": self.plan, "stale": self.stale, "input_name": self.input_name, "hash_seed": self.hash_seed, "sched": self.sched})
     }
     pub fn from_json(v: &Value) -> Option<ProcCase> {
         Some(ProcCase {
@@ -83,12 +97,16 @@ impl ProcCase {
             stale: v.get("stale").and_then(|x| x.as_u64()).unwrap_or(0) as usize,
             input_name: v.get("input_name").and_then(|x| x.as_str()).unwrap_or("x.json").to_string(),
             hash_seed: v.get("hash_seed")?.as_u64()?,
+            sched: v.get("sched").and_then(|x| x.as_str()).unwrap_or("").to_string(),
         })
     }
     fn plan_is_hard(&self) -> bool {
         self.plan.contains(":x:")
     }
 }
+
+/// what already sits in the file that stdout is appended to (another image, as in a library of concatenated programs)
+const APPEND_PREFIX: &[u8] = b"\x02\x00\x01\x03\x00\x00\x00\x00\x00\x00\x00\x00\x00\x00\x00\x01\x00 an earlier image, 61 bytes long, that must stay";
 
 pub struct Prepared {
     pub ast_json: String,
@@ -161,6 +179,16 @@ pub fn run_case(case: &ProcCase, prep: &Prepared) -> Ran {
             args.extend(["--input-format", "json", "-o", "of.bc"]);
             child = Child::new(case.profile, &args);
         }
+        Sink::DashOFileTwoScheduledInvocations | Sink::DashOFileWhileAnotherLiveInvocationIsKilled => {
+            args.extend([input, "-o", "of.bc"]);
+            child = Child::new(case.profile, &args);
+        }
+        Sink::StdoutAppendedToFile => {
+            args.push(input);
+            child = Child::new(case.profile, &args);
+            std::fs::write(dir.join("lib.bc"), APPEND_PREFIX).unwrap();
+            child.stdout = Out::FileAppend("lib.bc".into());
+        }
         Sink::DashODevFull => {
             args.extend([input, "-o", "/dev/full"]);
             child = Child::new(case.profile, &args);
@@ -174,7 +202,18 @@ pub fn run_case(case: &ProcCase, prep: &Prepared) -> Ran {
         budget: Some(8 * prep.reference.len() as u64 + 20_000),
         ..Default::default()
     });
-    let result = if case.sink == Sink::DashOFileWhileAnotherInvocationFails {
+    let result = if case.sink == Sink::DashOFileWhileAnotherLiveInvocationIsKilled {
+        let choices: Vec<u8> = case.sched.bytes().map(|b| b - b'0').collect();
+        let mut doomed = child.clone();
+        doomed.shim = Some(ShimCfg { seed: case.hash_seed ^ 7, plan: format!("f:0:K:{}", 1 + case.stale % 60), ..Default::default() });
+        // A = the doomed one (the schedule starts with '0': it opens the output first), B = the invocation under test
+        super::proc::run_scheduled_pair(&dir, &doomed, &child, "openw,writef,rename,flock", &choices).1
+    } else if case.sink == Sink::DashOFileTwoScheduledInvocations {
+        let choices: Vec<u8> = case.sched.bytes().map(|b| b - b'0').collect();
+        let (ra, rb, _log) = super::proc::run_scheduled_pair(&dir, &child, &child, "openw,writef,rename,flock", &choices);
+        // both must end alike; report the less successful one
+        if ra.exit.is_success() { rb } else { ra }
+    } else if case.sink == Sink::DashOFileWhileAnotherInvocationFails {
         std::fs::write(dir.join("bad.json"), "{\"Top\": [{\"Integer\": ").unwrap();
         let mut other = Child::new(case.profile, &["compile", "bad.json", "-o", "of.bc"]);
         other.shim = Some(ShimCfg { seed: case.hash_seed ^ 1, ..Default::default() });
@@ -184,7 +223,8 @@ pub fn run_case(case: &ProcCase, prep: &Prepared) -> Ran {
     };
     let produced = match case.sink {
         Sink::StdoutFile | Sink::StdoutPipe | Sink::StdinToStdout | Sink::DashODevStdout => Some(result.stdout.clone()),
-        Sink::DashOFile | Sink::DashOFileWhileAnotherInvocationFails => std::fs::read(dir.join("of.bc")).ok(),
+        Sink::DashOFile | Sink::DashOFileWhileAnotherInvocationFails | Sink::DashOFileTwoScheduledInvocations | Sink::DashOFileWhileAnotherLiveInvocationIsKilled => std::fs::read(dir.join("of.bc")).ok(),
+        Sink::StdoutAppendedToFile => std::fs::read(dir.join("lib.bc")).ok().map(|b| if b.starts_with(APPEND_PREFIX) { b[APPEND_PREFIX.len()..].to_vec() } else { let mut x = b"<the prefix that was in the file is gone> ".to_vec(); x.extend_from_slice(&b); x }),
         Sink::DashODir => {
             // the derived name is the tool's business: exactly one file of the directory must be new or changed
             // (a stale file that the tool did not choose as its output is simply left alone)
@@ -313,16 +353,35 @@ fn exercise(spec: &ProgSpec, rng: &mut Rng, per_program_random: usize) -> Out1 {
     let profile = if rng.coin() { Profile::Debug } else { Profile::Release };
     let hash_seed = rng.next_u64();
     let input_name: String = (*rng.pick(&["x.json", "x.json", "prog.v2.json", "my ast.json", "x.JSON", "дерево.json", "a.b.c.json"])).to_string();
-    if !baseline_accepts(&ProcCase { spec: spec.clone(), profile, sink: Sink::DashOFile, plan: String::new(), stale: 0, input_name: input_name.clone(), hash_seed }, &prep) {
+    if !baseline_accepts(&ProcCase { spec: spec.clone(), profile, sink: Sink::DashOFile, plan: String::new(), stale: 0, input_name: input_name.clone(), hash_seed, sched: String::new() }, &prep) {
         out.evaluations += 1;
         out.skipped = true;
         return out;
     }
     let mut cases: Vec<ProcCase> = Vec::new();
-    let mk = |sink: Sink, plan: String| ProcCase { spec: spec.clone(), profile, sink, plan, stale: 0, input_name: input_name.clone(), hash_seed };
+    let mk = |sink: Sink, plan: String| ProcCase { spec: spec.clone(), profile, sink, plan, stale: 0, input_name: input_name.clone(), hash_seed, sched: String::new() };
     // fault-free variants: every documented way of getting the bytes out
-    for s in [Sink::StdoutFile, Sink::StdoutPipe, Sink::DashOFile, Sink::DashODir, Sink::StdinToStdout, Sink::DashODevStdout, Sink::DashOFileWhileAnotherInvocationFails] {
+    for s in [Sink::StdoutFile, Sink::StdoutPipe, Sink::DashOFile, Sink::DashODir, Sink::StdinToStdout, Sink::DashODevStdout, Sink::DashOFileWhileAnotherInvocationFails, Sink::StdoutAppendedToFile] {
         cases.push(mk(s, String::new()));
+    }
+    // two live invocations of the same command: two decided interleavings per program
+    for _ in 0..2 {
+        let mut c = mk(Sink::DashOFileTwoScheduledInvocations, String::new());
+        c.sched = (0..10).map(|_| if rng.coin() { '1' } else { '0' }).collect();
+        cases.push(c);
+    }
+    {
+        let mut c = mk(Sink::DashOFileWhileAnotherLiveInvocationIsKilled, String::new());
+        c.sched = std::iter::once('0').chain((0..9).map(|_| if rng.coin() { '1' } else { '0' })).collect();
+        cases.push(c);
+    }
+    // a burst of consecutive passing errors (a pipe that stays full for a while): giving up silently after n retries is not reporting
+    {
+        let sink = rng.pick(&[Sink::StdoutFile, Sink::StdoutPipe, Sink::DashOFile]).clone();
+        let cls = sink.class();
+        let at = rng.below(3);
+        let plan: String = (0..14).map(|k| format!("{}:{}:y:11", cls, at + k)).collect::<Vec<_>>().join(";");
+        cases.push(mk(sink, plan));
     }
     // durable state left by an earlier run: a longer stale file at the output path must be replaced, not overlaid
     for s in [Sink::DashOFile, Sink::DashODir] {
